@@ -57,12 +57,9 @@ structure SpecState where
   /-- files that were loaded successfully at least once and still exist, with the content of their last
       successful load; the MOST RECENTLY loaded file first -/
   loaded : List (File × List (Name × PolId))
-  /-- sticky flag: at some point a file was reloaded successfully WITHOUT a name it used to define while
-      another file's definition of that name was in force (the F-C18-a situation) -/
-  shadowedDrop : Bool
   deriving Repr
 
-def SpecState.init : SpecState := { seen := [], files := [], loaded := [], shadowedDrop := false }
+def SpecState.init : SpecState := { seen := [], files := [], loaded := [] }
 
 /-- the definitions of name `p`, one per file that still defines it, most recently loaded first -/
 def definers (p : Name) (loaded : List (File × List (Name × PolId))) : List (File × PolId) :=
@@ -73,27 +70,16 @@ most recently loaded file that still defines it; a name no file defines has none
 def specStore (R : List Name) (sp : SpecState) (p : Name) : Option PolId :=
   if R.contains p then none else ((definers p sp.loaded).head?).map Prod.snd
 
-/-- does loading `defs` from `f` drop a (non-reserved) name that `f` defined and some other file shadows? -/
-def isShadowedDrop (R : List Name) (loaded : List (File × List (Name × PolId))) (f : File)
-    (defs : List (Name × PolId)) : Bool :=
-  match dget loaded f with
-  | none => false
-  | some old =>
-    old.any (fun e => !R.contains e.1 && (dget defs e.1).isNone &&
-      decide (((definers e.1 loaded).head?).map Prod.fst ≠ some f))
-
 def specRemove (sp : SpecState) (f : File) : SpecState :=
   { sp with seen := dpop sp.seen f, loaded := sp.loaded.filter (fun e => decide (e.1 ≠ f)) }
 
-def specVisit (R : List Name) (snap : DirSnapshot) (sp : SpecState) (f : File) : SpecState :=
+def specVisit (_R : List Name) (snap : DirSnapshot) (sp : SpecState) (f : File) : SpecState :=
   match dget snap f, dget sp.seen f with
   | some (t, parse), some ts =>
     if t > ts then
       let sp1 := { sp with seen := dset sp.seen f t }
       match parse with
-      | .ok defs =>
-        { sp1 with loaded := (f, defs) :: sp.loaded.filter (fun e => decide (e.1 ≠ f)),
-                   shadowedDrop := sp.shadowedDrop || isShadowedDrop R sp.loaded f defs }
+      | .ok defs => { sp1 with loaded := (f, defs) :: sp.loaded.filter (fun e => decide (e.1 ≠ f)) }
       | _ => sp1                      -- not a valid policy document: rejected as a whole
     else sp
   | _, _ => sp
@@ -145,26 +131,5 @@ def BodyOK (T : NameTables) (j : J) : Prop :=
 /-- **a policy document**: a JSON object of policy bodies -/
 def DocOK (T : NameTables) (j : J) : Prop :=
   ∃ kvs, j = .obj kvs ∧ ∀ e ∈ kvs, BodyOK T e.2
-
-/-- every node the parser walks into has the JSON type the format says (nothing about names) -/
-def OpsTyped (j : J) : Prop := ∃ kvs, j = .obj kvs
-def TableTyped (j : J) : Prop := ∃ kvs, j = .obj kvs ∧ ∀ e ∈ kvs, OpsTyped e.2
-def BodyTyped (T : NameTables) (j : J) : Prop :=
-  ∃ kvs, j = .obj kvs ∧
-    ((∀ k ∈ dkeys kvs, k = "groups" ∨ k = "preset") →
-      (∀ v, dget kvs "preset" = some v → Falsy v ∨ TableTyped v) ∧
-      (∀ v, dget kvs "groups" = some v → Falsy v ∨ ∃ gs, v = .obj gs ∧ ∀ g ∈ gs, TableTyped g.2)) ∧
-    (¬ (∀ k ∈ dkeys kvs, k = "groups" ∨ k = "preset") → (∀ k ∈ dkeys kvs, T.objectTypes.contains k = true) →
-      TableTyped (.obj kvs))
-def DocTyped (T : NameTables) (j : J) : Prop :=
-  ∃ kvs, j = .obj kvs ∧ ∀ e ∈ kvs, BodyTyped T e.2
-
-/-- a body mixes section names with object type names (and has nothing else): the `KeyError` input -/
-def BodyMixed (T : NameTables) (j : J) : Prop :=
-  ∃ kvs, j = .obj kvs ∧ kvs ≠ [] ∧
-    ¬ (∀ k ∈ dkeys kvs, k = "groups" ∨ k = "preset") ∧ ¬ (∀ k ∈ dkeys kvs, T.objectTypes.contains k = true) ∧
-    (∀ k ∈ dkeys kvs, k = "groups" ∨ k = "preset" ∨ T.objectTypes.contains k = true)
-def DocUnmixed (T : NameTables) (j : J) : Prop :=
-  ∀ kvs, j = .obj kvs → ∀ e ∈ kvs, ¬ BodyMixed T e.2
 
 end Kmip.Mon
